@@ -148,8 +148,7 @@ def cbmc_flags(unit):
         flags += ['--unwind', str(unit['unwind']), '--unwinding-assertions']
     if unit['unwindset']:
         flags += ['--unwindset', unit['unwindset'], '--unwinding-assertions']
-    if unit['objbits']:
-        flags += ['--object-bits', str(unit['objbits'])]
+    flags += ['--object-bits', str(unit['objbits'] or 10)]
     if unit['solver']:
         flags += unit['solver'].split()
     return flags
